@@ -63,6 +63,8 @@ impl TcpStreamConnect {
         // unix connect is some like completion mode
         // we must give the connect request first to the system
         match self.stream.connect(&self.addr.into()) {
+            #[cfg(may_verif)]
+            ref r if crate::verif::sys(&self.io_data.io_flag, "sys.connect", r) => unreachable!(),
             Ok(_) => {
                 self.is_connected = true;
                 Ok(true)
@@ -90,6 +92,8 @@ impl TcpStreamConnect {
             self.io_data.io_flag.store(0, Ordering::Relaxed);
 
             match self.stream.connect(&self.addr.into()) {
+                #[cfg(may_verif)]
+                ref r if crate::verif::sys(&self.io_data.io_flag, "sys.connect", r) => unreachable!(),
                 Ok(_) => return Ok(convert_to_stream(self)),
                 Err(ref e) if e.raw_os_error() == Some(libc::EINPROGRESS) => {}
                 Err(ref e) if e.raw_os_error() == Some(libc::EALREADY) => {}
